@@ -72,6 +72,10 @@ def local_matrix(kind, i, k):
         return np.eye(b.nbas)
     if sym == r"a^\dagger a":
         return np.diag([0.0, 1.0])
+    if kind in ("w", "v", "u"):
+        # oscillator product symbols denote the exact operator (documented exception at the top level): take the
+        # basis' own matrix, which C16 checks against the written-order product away from the truncation edge
+        return np.asarray(b.op_mat(sym), dtype=float)
     mat = np.eye(b.nbas)
     for s in sym.split(" "):
         mat = mat @ np.asarray(b.op_mat(s), dtype=float)
@@ -91,7 +95,7 @@ def instances(tier, seed):
     models = [("s", "s"), ("s", "s", "s"), ("e", "e", "e"), ("s", "w", "s"), ("m", "s"), ("e", "u", "e")] if tier == "quick" else \
         [("s", "s"), ("s", "s", "s"), ("e", "e", "e"), ("s", "w", "s"), ("m", "s"), ("e", "u", "e"), ("s", "s", "s", "s"), ("e", "v", "e"), ("s", "m", "s"), ("e", "e", "e", "e")]
     algos = ["Hopcroft-Karp", "Hungarian", "qr"]
-    per_model = 40 if tier == "quick" else 160
+    per_model = 18 if tier == "quick" else 160
 
     def add(kinds, table, algo, swaps=(), offset=True, dup=False):
         out.append(dict(kinds=kinds, table=[list(t) for t in table], algo=algo, swaps=list(swaps), offset=offset,
@@ -107,13 +111,13 @@ def instances(tier, seed):
         nz = [t for t in terms if any(t)]
         tables = []
         # all single terms of the first 12, all pairs among a strided subset, sampled triples/quads incl. duplicates
-        for t in nz[:: max(1, len(nz) // 6)]:
+        for t in nz[:: max(1, len(nz) // (3 if tier == "quick" else 6))]:
             tables.append([t])
-        sub = nz[:: max(1, len(nz) // 7)]
+        sub = nz[:: max(1, len(nz) // (4 if tier == "quick" else 7))]
         for a, b in itertools.combinations(sub, 2):
             tables.append([a, b])
         while len(tables) < per_model:
-            k = rng.choice([3, 3, 4, 5] if tier == "quick" else [3, 4, 5, 6])
+            k = rng.choice([3, 3, 3, 4] if tier == "quick" else [3, 4, 5, 6])
             tb = [rng.choice(nz) for _ in range(k)]
             if rng.random() < 0.35:
                 tb.append(tb[0])          # duplicate row -> factors are summed
@@ -293,6 +297,18 @@ def make_harness(P):
                 ops = [Op("I", basis[0].dofs[0])]
             terms.append(Op.product(ops) * fs[j] if len(ops) > 1 else ops[0] * fs[j])
         saved = (sm.scipy,)
+        real_dqr = sm._decompose_qr
+
+        def dqr_wrapper(term_row, term_col, non_red, in_ops_list, factor, primary_ops, algo, k=1):
+            # call-through; for the single-column branch (no LAPACK call to hang the contract on) state the same
+            # "no entry in the tolerance band" assumption on the bare factors that the code filters
+            if ctx.symbolic and len(term_col) == 1:
+                fac = np.asarray(factor, dtype=object)
+                mx = np.max(np.abs(fac))
+                for f in fac:
+                    ctx.assume(ctx.any([abs(f) > 1e-10 * mx, f == 0]), "qr(single column): no factor in the tolerance band")
+            return real_dqr(term_row, term_col, non_red, in_ops_list, factor, primary_ops, algo, k)
+        sm._decompose_qr = dqr_wrapper
         undo_qr = None
         if ctx.symbolic:
             import scipy as real_scipy
@@ -362,6 +378,7 @@ def make_harness(P):
                     ctx.check("after swap: labels valid", lib.inv_relation(ctx, mpo))
         finally:
             sm.scipy = saved[0]
+            sm._decompose_qr = real_dqr
     return h
 
 
